@@ -34,7 +34,7 @@ Definition rundir (cons sup mp src ref : list nat) (is ir : bool) (pass err rais
    map (fun s => (fst s, tsuite_bool (snd s))) (dir_suites is ir c (fcof pass err raise))).
 """
 DIRS = ["", "a", "b", "a/sub", "b/sub", "a/sub/deep", ".hidden", "a/.cache"]
-BASES = ["x", "y", "data", "res", "mesh", ".partial", "x y"]
+BASES = ["x", "y", "data", "res", "mesh", ".partial", "x y", "diff_table", "diff_x"]
 EXTS = [".csv", ".csv", ".vtu", ".txt", ".tab", ""]   # "" = extension-less file with VTK content (sniffed)
 READ_AS_TAB = 'dsv{"delimiter":",","use_names":true}:*.tab'
 READ_AS_CSV = 'dsv{"delimiter":",","use_names":true}:*.csv'
